@@ -19,8 +19,9 @@ def families(tier):
         fams += [
             F("external", "append", "append", fail=1, crash=1),
             F("external", "append", "append", fail=2, crash=1),
-            F("external", "append", "append", fail=1, lost=1, crash=1, r5=0),
-            F("external", "append", "overwrite", op4="append", att=(2, 2, 2), fail=0, crash=1),
+            F("external", "append", "append", fail=1, lost=1, crash=1),
+            F("external", "append", "none", fail=1, lost=0, crash=1, r5=0),
+            F("external", "append", "overwrite", op4="append", att=(2, 2, 2), fail=0, crash=1, r3=99),
             F("external", "append", "append", v2=True, fail=1, crash=1, r3=2),
             F("external", "delete", "append", init="onboard", fail=1, crash=1, r3=1),
         ]
